@@ -30,6 +30,8 @@ import CLModel.Proofs.C13Toml
 import CLModel.Proofs.C13TomlCompose
 import CLModel.Proofs.C13TomlExample
 import CLModel.Proofs.C13Ini
+import CLModel.Paths.TomlSession
+import CLModel.Proofs.C13Session
 namespace C13
 open PF
 
@@ -1219,3 +1221,156 @@ theorem projectFiles_ids_ok (md : Mode) (pcs : List PC) :
   toPFM_idsOk md pcs
 
 end C13T
+
+/-!
+## C13S — parser sessions: ONE `TOMLParser` / `EnumerateApp` object used for a sequence of calls (Paths/TomlSession.lean)
+
+The class of regressions these exclude: anything a call leaves behind ON THE OBJECT (a cache of included configurations keyed by
+less than the result depends on, a shared `env` dict, shared child `ProjectConfig` objects) that a later call picks up.  In the
+model the objects are explicit (`TParser`, `State.live`, `EApp`) and every call is a step; the theorems say that the result of
+call number `n` is the STATELESS function of the arguments of call `n` and of the files as they are at call `n`.  The real
+objects are held to that by the `c13.session` / `c13.ini.session` correspondence on recorded histories and by the harness
+oracle (by-construction expectation per call + the same call on a fresh object).
+-/
+namespace C13S
+open TS TC PF
+
+/-- **A `TOMLParser` object has no memory**: in a sequence of `parse` calls on ONE object, the `n`-th result is
+    `TOMLParser().parse` of the `n`-th arguments on the files as they are at the `n`-th call — whatever was parsed before, with
+    whatever variables, and whatever was rewritten on disk in between. -/
+theorem parser_session_pointwise (p : TParser) (as : List ParseArgs) (n : Nat) :
+    (p.session as)[n]? = (as[n]?).map fun a => TC.parse a.w (ctxEnv a.env) a.ignore a.path :=
+  session_get p as n
+
+/-- the object after a call is the object before it (nothing is stored on `self`) -/
+theorem parser_object_unchanged (p : TParser) (a : ParseArgs) : (p.parse a).1 = p := rfl
+
+/-- … also inside a history that mixes `parse`, `set_locales(deep=True)` on earlier results and `ProjectFiles` enumerations:
+    call number `n`, if it is a `parse`, returns `TC.parse` of ITS arguments and ITS world. -/
+theorem session_parse_pointwise (s : State) (ops : List Op) (n : Nat) (a : ParseArgs) (h : ops[n]? = some (.parse a)) :
+    (run s ops).2[n]? = some (.parsed (TC.parse a.w (ctxEnv a.env) a.ignore a.path)) := by
+  rw [run_get, h]; simp [step_parse_out]
+
+/-- **`ProjectFiles` built again and again from the configurations the caller holds**: call number `n`, if it is
+    `ProjectFiles(locale, [live[i] …], mergebase)` + enumeration + lookups, returns the stateless `listOf` of the graphs held at
+    that moment — independent of the locales, merge bases and orders of the earlier constructions. -/
+theorem session_files_pointwise (s : State) (ops : List Op) (n : Nat) (is : List Nat) (loc : Option Loc) (mb : Option Text)
+    (cwd : Text) (fs : FS) (looks : List Path) (h : ops[n]? = some (.files is loc mb cwd fs looks)) (pcs : List PC)
+    (hp : is.mapM (fun i => (stateAt s ops n).live[i]?) = some pcs) :
+    (run s ops).2[n]? = some (.listed (listOf cwd pcs loc mb fs looks)) := by
+  rw [run_get, h]; simp [step_files_out _ _ _ _ _ _ _ _ hp]
+
+/-- building and enumerating a `ProjectFiles` object changes nothing the caller holds -/
+theorem session_reads_leave_state (s : State) (is : List Nat) (loc : Option Loc) (mb : Option Text) (cwd : Text) (fs : FS)
+    (looks : List Path) : (step s (.files is loc mb cwd fs looks)).1 = s :=
+  step_files_state s is loc mb cwd fs looks
+
+/-- **No aliasing between results**: a configuration the caller holds is changed by nothing but `set_locales` on that very
+    configuration — not by later `parse` calls (of the same or other files, with the same or other variables), not by
+    `set_locales(deep=True)` on ANOTHER result that includes the same file, not by any number of `ProjectFiles` objects. -/
+theorem live_config_stable (s : State) (ops : List Op) (i : Nat) (hi : i < s.live.length)
+    (hops : ∀ op ∈ ops, ∀ ls, op ≠ .deep i ls) : (run s ops).1.live[i]? = s.live[i]? :=
+  run_live_stable s ops i hi hops
+
+/-- a successful `parse` hands the caller exactly `TC.parse …`, and that object stays what it is through any later history that
+    does not call `set_locales` on it -/
+theorem parsed_config_kept (s : State) (a : ParseArgs) (pc : PC) (ops : List Op)
+    (h : TC.parse a.w (ctxEnv a.env) a.ignore a.path = .ok pc)
+    (hops : ∀ op ∈ ops, ∀ ls, op ≠ .deep s.live.length ls) :
+    (run s (.parse a :: ops)).1.live[s.live.length]? = some pc := by
+  rw [run_cons]
+  have hl := step_parse_live_ok s a pc h
+  simp only
+  rw [run_live_stable _ ops s.live.length (by rw [hl]; simp) hops, hl]
+  simp
+
+/-- **Held graphs = fresh graphs**: `ProjectFiles` on the graphs `parse` returned for `configs` is `TC.projectFiles` (parse +
+    construct in one go) — so every `C13T.enumerate_*` theorem speaks about the enumerations of a session as well. -/
+theorem files_of_fresh_parse {w : World} {env : Env} {ig : Bool} {configs : List Text} {pcs : List PC}
+    (hp : parseAll w env ig configs = .ok pcs) (locale : Option Loc) (mb : Option Text) (fs : FS) (looks : List Path)
+    {r : List Item × List (Option Item)} (h : listOf w.cwd pcs locale mb fs looks = .ok r) :
+    TC.enumerate w env ig configs locale mb fs = .ok r.1 := by
+  obtain ⟨o, ho, hits⟩ := listOf_items h
+  unfold TC.enumerate
+  rw [projectFiles_eq_filesOf, hp]
+  simp only [ho, hits]
+
+/-- **An `EnumerateApp` object has no memory either**: the `n`-th `asConfig()` on one object is `asConfig` of the configuration
+    its constructor loaded, on the files (`filter.py`, all-locales) as they are at the `n`-th call. -/
+theorem eapp_session_pointwise (app : EApp) (ws : List TI.IniWorld) (n : Nat) :
+    (app.session ws)[n]? = (ws[n]?).map fun w => TI.asConfigAbs w app.l10nbase app.config :=
+  eapp_session_get app ws n
+
+/-- **Re-used application = fresh application** as long as the l10n.ini files load to the same configuration: any later
+    `asConfig()` returns what `EnumerateApp(inipath, l10nbase).asConfig()` returns at that moment. -/
+theorem eapp_reuse_eq_fresh {w w' : TI.IniWorld} {fl : TI.Flavour} {inipath l10nbase : Text} {app : EApp}
+    (h : EApp.new w fl inipath l10nbase = .ok app) (hload : TI.load w' fl inipath = TI.load w fl inipath)
+    (hcwd : w'.cwd = w.cwd) : (app.asConfig w').2 = TI.enumerateApp w' fl inipath l10nbase := by
+  obtain ⟨hc, hb⟩ := eapp_new_ok h
+  unfold TI.enumerateApp TI.asConfig EApp.asConfig
+  rw [hload, hc, hb, hcwd]
+
+/-! ### which caches on a parser object would be safe -/
+
+/-- **A cache is invisible iff its key determines the result** (⇐): calls through a memo table whose key determines the result
+    (`key a = key b → f a = f b`; e.g. a key made of everything `f` reads) return, call by call, what `f` returns. -/
+theorem memo_session_pointwise {A K R : Type} [DecidableEq K] (m : Memo A K R)
+    (hk : ∀ a b, m.key a = m.key b → m.f a = m.f b) (as : List A) : m.run [] as = as.map m.f :=
+  memo_run_eq m hk as [] (fun _ _ h => by simp [List.lookup] at h)
+
+/-- (⇒) two calls with the same key and different results: the second call gets the FIRST call's result. -/
+theorem memo_key_must_determine {A K R : Type} [DecidableEq K] (m : Memo A K R) (a b : A) (hkey : m.key a = m.key b)
+    (hne : m.f a ≠ m.f b) : m.run [] [a, b] ≠ [a, b].map m.f := by
+  rw [memo_second_call_stale m a b hkey]
+  intro h
+  simp only [List.map_cons, List.map_nil, List.cons.injEq, and_true, true_and] at h
+  exact hne h
+
+/-- **The regression in miniature** (negation witness, evaluated through the whole parser model): the included file of the
+    example world parsed twice through a cache keyed by (normalised path, sorted NAMES of the command-line variables) — first for
+    the checkout `/l`, then for `/other`.  Equal keys, different results: the second call returns the first call's configuration,
+    whose `l10n_base` is still `/l`.  (A key of the path alone is coarser and fails on the same two calls.) -/
+theorem names_key_witness :
+    namesMemo.key exCallA = namesMemo.key exCallB ∧
+    namesMemo.run [] [exCallA, exCallB] ≠ [exCallA, exCallB].map namesMemo.f ∧
+    (namesMemo.run [] [exCallA, exCallB]).map (fun r => C13T.okOf r (fun pc => pc.environ.lookup (T "l10n_base"))) =
+      [some (some (T "/l")), some (some (T "/l"))] ∧
+    ([exCallA, exCallB].map namesMemo.f).map (fun r => C13T.okOf r (fun pc => pc.environ.lookup (T "l10n_base"))) =
+      [some (some (T "/l")), some (some (T "/other"))] := by
+  have hkey : namesMemo.key exCallA = namesMemo.key exCallB := by decide +kernel
+  have hB : ([exCallA, exCallB].map namesMemo.f).map (fun r => C13T.okOf r (fun pc => pc.environ.lookup (T "l10n_base"))) =
+      [some (some (T "/l")), some (some (T "/other"))] := by decide +kernel
+  have hA : (namesMemo.run [] [exCallA, exCallB]).map (fun r => C13T.okOf r (fun pc => pc.environ.lookup (T "l10n_base"))) =
+      [some (some (T "/l")), some (some (T "/l"))] := by
+    rw [memo_second_call_stale _ _ _ hkey]
+    revert hB
+    simp only [List.map_cons, List.map_nil, List.cons.injEq, and_true]
+    intro h; exact ⟨h.1, h.1⟩
+  refine ⟨hkey, ?_, hA, hB⟩
+  intro h
+  rw [h] at hA
+  rw [hA] at hB
+  revert hB
+  decide
+
+/-! ### non-vacuity: a two-call history on the example world, evaluated -/
+
+/-- parse the top file for `/l`, then again for `/other` on ONE parser, then mutate the first result -/
+def exOps : List Op :=
+  [.parse { w := C13T.exWorld, env := some [(T "l10n_base", T "/l")], ignore := true, path := T "/r/l10n.toml" },
+   .parse { w := C13T.exWorld, env := some [(T "l10n_base", T "/other")], ignore := true, path := T "/r/l10n.toml" },
+   .deep 0 [T "ja"]]
+
+/-- what the example looks at: `l10n_base` of the config and of its children, `locales` of the config and of its children -/
+def exView (pc : PC) : List (List Text) :=
+  [(pc.environ.lookup (T "l10n_base")).toList, pc.children.flatMap (fun c => (c.environ.lookup (T "l10n_base")).toList),
+   optL pc.locales, pc.children.flatMap (fun c => optL c.locales)]
+
+/-- the second result carries `/other` in the parent and in the included config; the first result keeps `/l` and only it gets
+    the new locales (the included config of the second result keeps `locales = None`) -/
+example :
+    (run State.init exOps).1.live.map exView =
+      [[[T "/l"], [T "/l"], [T "ja"], [T "ja"]],
+       [[T "/other"], [T "/other"], [T "de"], []]] := by decide +kernel
+
+end C13S
